@@ -73,6 +73,9 @@ fn interesting_f64(r: &mut StdRng) -> f64 {
 fn dyadic_history(r: &mut StdRng, tr: &mut Tr, len: usize) -> usize {
     const NR: usize = 6;
     let mut regs: Vec<Dyadic> = vec![Dyadic::zero(); NR];
+    // number of multiplications behind each register: the exact ghost value TLC carries grows by 64 bits per
+    // multiplication, so deep products are replaced by sums to keep validation linear
+    let mut depth: Vec<usize> = vec![0; NR];
     tr.group();
     tr.emit(json!({"k": "begin", "machine": "dyadic", "regs": NR}));
     let mut n = 0;
@@ -105,6 +108,7 @@ fn dyadic_history(r: &mut StdRng, tr: &mut Tr, len: usize) -> usize {
             match guarded(|| Dyadic::new(v, e)) {
                 Ok(d) => {
                     regs[t] = d;
+                    depth[t] = 0;
                     json!({"k": "d", "op": "new", "v": int_json(v), "exp": e, "r": t + 1, "res": "ok", "out": raw(&d)})
                 }
                 Err(m) => json!({"k": "d", "op": "new", "v": int_json(v), "exp": e, "r": t + 1, "res": "panic", "msg": m}),
@@ -113,9 +117,14 @@ fn dyadic_history(r: &mut StdRng, tr: &mut Tr, len: usize) -> usize {
             let f = interesting_f64(r);
             let d = Dyadic::from(f);
             regs[t] = d;
+            depth[t] = 0;
             json!({"k": "d", "op": "from_f64", "f": f64_json(f), "r": t + 1, "res": "ok", "out": raw(&d)})
         } else if c < 62 {
-            let op = if directed && step == 3 { "mul" } else if directed && (step == 4 || step == 5) { "add" } else { ["add", "sub", "mul"][r.random_range(0..3)] };
+            let mut op = if directed && step == 3 { "mul" } else if directed && (step == 4 || step == 5) { "add" } else { ["add", "sub", "mul"][r.random_range(0..3)] };
+            if op == "mul" && depth[a] + depth[b] + 1 > 6 {
+                op = "add";
+            }
+            depth[t] = if op == "mul" { depth[a] + depth[b] + 1 } else { depth[a].max(depth[b]) };
             let (x, y) = (regs[a], regs[b]);
             match guarded(|| match op {
                 "add" => x + y,
@@ -131,6 +140,7 @@ fn dyadic_history(r: &mut StdRng, tr: &mut Tr, len: usize) -> usize {
         } else if c < 67 {
             let d = -regs[a];
             regs[t] = d;
+            depth[t] = depth[a];
             json!({"k": "d", "op": "neg", "a": a + 1, "r": t + 1, "res": "ok", "out": raw(&d)})
         } else if c < 77 {
             let o = match regs[a].cmp(&regs[b]) {
@@ -179,6 +189,7 @@ fn phase_of(r: &mut StdRng) -> (i64, i64) {
 fn scalar_history(r: &mut StdRng, tr: &mut Tr, len: usize) -> usize {
     const NR: usize = 5;
     let mut regs: Vec<Scalar4> = vec![Scalar4::zero(); NR];
+    let mut depth: Vec<usize> = vec![0; NR];
     tr.group();
     tr.emit(json!({"k": "begin", "machine": "scalar", "regs": NR}));
     let mut n = 0;
@@ -199,6 +210,9 @@ fn scalar_history(r: &mut StdRng, tr: &mut Tr, len: usize) -> usize {
             }
             e
         };
+        if c < 20 {
+            depth[t] = 0;
+        }
         let ev = if c < 10 {
             let co = [interesting_i64(r) >> 34, interesting_i64(r) >> 34, r.random_range(-3..4), r.random_range(-3..4)];
             let co = if r.random_bool(0.2) { [interesting_i64(r), 0, interesting_i64(r), 0] } else { co };
@@ -215,7 +229,11 @@ fn scalar_history(r: &mut StdRng, tr: &mut Tr, len: usize) -> usize {
                 put(&mut regs, t, guarded(|| Scalar4::complex(f, g)), json!({"k": "s", "op": "complex", "f": [f64_json(f), f64_json(g)], "r": t + 1}))
             }
         } else if c < 55 {
-            let op = ["add", "sub", "mul", "mul"][r.random_range(0..4)];
+            let mut op = ["add", "sub", "mul", "mul"][r.random_range(0..4)];
+            if op == "mul" && depth[a] + depth[b] + 1 > 5 {
+                op = "sub";
+            }
+            depth[t] = if op == "mul" { depth[a] + depth[b] + 1 } else { depth[a].max(depth[b]) };
             let (x, y) = (regs[a], regs[b]);
             put(&mut regs, t, guarded(|| match op {
                 "add" => x + y,
@@ -224,10 +242,12 @@ fn scalar_history(r: &mut StdRng, tr: &mut Tr, len: usize) -> usize {
             }), json!({"k": "s", "op": op, "a": a + 1, "b": b + 1, "r": t + 1}))
         } else if c < 60 {
             let x = regs[a];
+            depth[t] = depth[a];
             put(&mut regs, t, guarded(|| x.conj()), json!({"k": "s", "op": "conj", "a": a + 1, "r": t + 1}))
         } else if c < 68 {
             let p = r.random_range(-9..10);
             let x = regs[a];
+            depth[t] = depth[a];
             put(&mut regs, t, guarded(|| {
                 let mut y = x;
                 y.mul_sqrt2_pow(p);
@@ -237,12 +257,14 @@ fn scalar_history(r: &mut StdRng, tr: &mut Tr, len: usize) -> usize {
             let (pn, pd) = phase_of(r);
             let x = regs[a];
             if r.random_bool(0.6) {
+                depth[t] = depth[a];
                 put(&mut regs, t, guarded(|| {
                     let mut y = x;
                     y.mul_phase(Rational64::new(pn, pd));
                     y
                 }), json!({"k": "s", "op": "mul_phase", "a": a + 1, "ph": [pn, pd], "r": t + 1}))
             } else {
+                depth[t] = 0;
                 put(&mut regs, t, guarded(|| Scalar4::one_plus_phase(Rational64::new(pn, pd))), json!({"k": "s", "op": "one_plus_phase", "ph": [pn, pd], "r": t + 1}))
             }
         } else if c < 84 {
